@@ -565,3 +565,401 @@ def std_equivalents(d):
                 t["targs"] = list(oty.get("args", [])) if oty else []
     d["_stdeq"] = known
     return known
+
+
+def desugar_newtypes(d):
+    """A private one-field struct of the crate around a hashbrown type (`struct Cursor<T>(raw::RawIter<T>)`) is that hashbrown type under
+    another name: its type entries become the wrapped type's, `.0` projections disappear, `Cursor(x)` is `x`.  Its methods stay
+    ordinary functions (see forwarders below).  Returns the list of newtypes rewritten."""
+    if "_newtypes" in d:
+        return d["_newtypes"]
+    T = d["types"]
+    done = []
+    for a in d["adts"]:
+        if a.get("kind") != "Struct" or a.get("exported") or not a["path"].startswith(d["crate"] + "::"):
+            continue
+        fs = a["variants"][0]["fields"]
+        if len(fs) != 1:
+            continue
+        it = T[fs[0]["ty"]]
+        if it.get("k") != "adt" or not str(it.get("adt", "")).startswith("hashbrown::"):
+            continue
+        N = a["path"]
+        gens = [g for g in a.get("generics", []) if not g.startswith("'")]
+        for i, t in enumerate(list(T)):
+            if t.get("k") == "adt" and t.get("adt") == N:
+                args = t.get("args", [])
+                inner = None
+                if args == it.get("args", []):
+                    inner = fs[0]["ty"]
+                else:
+                    for j, u in enumerate(T):
+                        if u.get("k") == "adt" and u.get("adt") == it["adt"] and u.get("args", []) == args:
+                            inner = j
+                    if inner is None:
+                        T.append({"s": "%s<%s>" % (it["adt"], ", ".join(T[x]["s"] for x in args)), "has_param": t.get("has_param"), "k": "adt", "adt": it["adt"], "args": list(args)})
+                        inner = len(T) - 1
+                src = T[inner]
+                keep = {"desugared_from": N}
+                t.clear()
+                t.update(src)
+                t.update(keep)
+        a["kind"] = "StructDesugared"
+
+        def walk(x):
+            if isinstance(x, dict):
+                if isinstance(x.get("proj"), list) and any(e.get("k") == "field" and e.get("adt") == N for e in x["proj"]):
+                    x["proj"] = [e for e in x["proj"] if not (e.get("k") == "field" and e.get("adt") == N)]
+                if x.get("k") == "assign" and isinstance(x.get("rv"), dict) and x["rv"].get("k") == "aggregate" and x["rv"].get("adt") == N:
+                    x["rv"] = {"k": "use", "op": x["rv"]["ops"][0], "was_aggregate": N}
+                for v in x.values():
+                    walk(v)
+            elif isinstance(x, list):
+                for v in x:
+                    walk(v)
+        walk(d["bodies"])
+        done.append({"newtype": N, "of": it["adt"]})
+    d["_newtypes"] = done
+    return done
+
+
+def forwarders(d):
+    """A function of the crate whose whole body hands its parameters, in order and unchanged (or re-borrowed), to one function outside
+    the crate and returns what that returns, *is* that function: calls of it are rewritten into calls of the target.  A function that
+    returns its only parameter is the identity.  Returns {path: target}."""
+    if "_fwd" in d:
+        return d["_fwd"]
+    T = d["types"]
+    found = {}
+    for b in d["bodies"]:
+        if b.get("kind") == "Closure" or not b["path"].startswith(d["crate"] + "::") or b.get("exported"):
+            continue
+        live = _live_blocks(b)
+        blocks = b["blocks"]
+        calls = [i for i in live if blocks[i]["term"]["k"] == "call"]
+        if any(blocks[i]["term"]["k"] in ("switch", "drop", "assert") for i in live):
+            continue
+        vals = {i: ("param", i) for i in range(1, b["arg_count"] + 1)}
+        ok = True
+        x, steps, the_call = 0, 0, None
+        while ok:
+            blk = blocks[x]
+            for s in blk["stmts"]:
+                if _is_noise(s, T, b):
+                    continue
+                if s["k"] != "assign" or s["place"]["proj"]:
+                    ok = False
+                    break
+                rv, l = s["rv"], s["place"]["local"]
+                if rv["k"] == "use" and rv["op"]["k"] in ("copy", "move") and not rv["op"]["place"]["proj"] and rv["op"]["place"]["local"] in vals:
+                    vals[l] = vals[rv["op"]["place"]["local"]]
+                elif rv["k"] == "ref" and len(rv["place"]["proj"]) == 1 and rv["place"]["proj"][0]["k"] == "deref" and rv["place"]["local"] in vals \
+                        and T[b["locals"][rv["place"]["local"]]["ty"]].get("k") == "ref":
+                    vals[l] = vals[rv["place"]["local"]]          # re-borrow of a reference parameter
+                else:
+                    ok = False
+                    break
+            if not ok:
+                break
+            t = blk["term"]
+            if t["k"] == "return":
+                break
+            if t["k"] == "call":
+                if the_call is not None or t.get("dest") is None or t["dest"]["proj"] or t.get("target") is None or (t.get("resolved") or {}).get("local") \
+                        or t.get("callee") is None:
+                    ok = False
+                    break
+                args = []
+                for a_ in t["args"]:
+                    if a_["k"] in ("copy", "move") and not a_["place"]["proj"] and a_["place"]["local"] in vals:
+                        args.append(vals[a_["place"]["local"]])
+                    else:
+                        ok = False
+                if not ok or args != [("param", i) for i in range(1, b["arg_count"] + 1)]:
+                    ok = False
+                    break
+                the_call = t
+                vals[t["dest"]["local"]] = ("result",)
+                x = t["target"]
+            elif t["k"] == "goto":
+                x = t["target"]
+            else:
+                ok = False
+            steps += 1
+            if steps > 6:
+                ok = False
+        if not ok:
+            continue
+        if the_call is not None and vals.get(0) == ("result",):
+            found[b["path"]] = ("call", the_call)
+        elif the_call is None and b["arg_count"] == 1 and vals.get(0) == ("param", 1) and b["locals"][0]["ty"] == b["locals"][1]["ty"]:
+            found[b["path"]] = ("identity", None)
+    if found:
+        for b in d["bodies"]:
+            if b["path"] in found:
+                continue
+            for blk in b["blocks"]:
+                t = blk["term"]
+                if t["k"] != "call" or t.get("callee") not in found or not (t.get("resolved") or {}).get("local"):
+                    continue
+                kind, tgt = found[t["callee"]]
+                if kind == "identity":
+                    if t.get("target") is None or t.get("dest") is None:
+                        continue
+                    blk["stmts"].append({"k": "assign", "place": t["dest"], "rv": {"k": "use", "op": t["args"][0]}, "span": t.get("span"), "was_call": t["callee"]})
+                    blk["term"] = {"k": "goto", "target": t["target"], "span": t.get("span")}
+                    continue
+                t["rewritten_from"] = t["callee"]
+                for k_ in ("func", "callee", "callee_args", "callee_dpath", "targs", "unsafe", "local", "intrinsic", "resolved", "trait"):
+                    if k_ in tgt:
+                        t[k_] = tgt[k_]
+                    elif k_ in t:
+                        del t[k_]
+    d["_fwd"] = {k: (v[0] if v[0] == "identity" else v[1].get("callee")) for k, v in found.items()}
+    return d["_fwd"]
+
+
+HB_BUCKET = "hashbrown::raw::Bucket"
+
+
+def desugar_located_bucket(d):
+    """`enum Bucket<T> { Main(raw::Bucket<T>), Old(raw::Bucket<T>) }` is `struct Bucket<T> { bucket: raw::Bucket<T>, in_main: bool }` under
+    another name.  Which variant stands for the main table is read off the code that dispatches on it: in the arms of every `match`
+    on such a value, hashbrown table operations are applied either to a table held directly in a struct field (main) or to one
+    inside an `Option` payload (old); the vote must be unanimous, otherwise nothing is rewritten (and role discovery fails closed as
+    before).  Aggregates, downcasts, field projections, discriminant reads and the switches on them are rewritten to the struct form."""
+    if "_bucketenum" in d:
+        return d["_bucketenum"]
+    T = d["types"]
+    done = []
+    bool_ty = next((i for i, t in enumerate(T) if t.get("k") == "bool"), None)
+    if bool_ty is None:
+        T.append({"s": "bool", "has_param": False, "k": "bool"})
+        bool_ty = len(T) - 1
+    for a in d["adts"]:
+        if a.get("kind") != "Enum" or len(a["variants"]) != 2 or not a["path"].startswith(d["crate"] + "::"):
+            continue
+        if any(len(v["fields"]) != 1 or T[v["fields"][0]["ty"]].get("adt") != HB_BUCKET for v in a["variants"]):
+            continue
+        E = a["path"]
+        e_ids = {i for i, t in enumerate(T) if t.get("k") == "adt" and t.get("adt") == E}
+        vnames = [v["name"] for v in a["variants"]]
+        # ---- the vote
+        votes = {0: set(), 1: set()}
+        for b in d["bodies"]:
+            blocks = b["blocks"]
+            dl = {}
+            for blk in blocks:
+                for st in blk["stmts"]:
+                    if st.get("k") == "assign" and st["rv"].get("k") == "discr" and not st["place"]["proj"]:
+                        pty = st["rv"]["place"].get("ty")
+                        if pty in e_ids:
+                            dl[st["place"]["local"]] = True
+            if not dl:
+                continue
+            for bi, blk in enumerate(blocks):
+                t = blk["term"]
+                if t.get("k") != "switch" or t["discr"].get("k") not in ("copy", "move") or t["discr"]["place"]["proj"] or t["discr"]["place"]["local"] not in dl:
+                    continue
+                tgts = {v: tb for v, tb in t["targets"]}
+                arms = {}
+                if 0 in tgts:
+                    arms[0] = tgts[0]
+                if 1 in tgts:
+                    arms[1] = tgts[1]
+                if len(arms) == 1:
+                    arms[1 - list(arms)[0]] = t["otherwise"]
+                for v, start in arms.items():
+                    other = arms.get(1 - v)
+                    seen, stk = set(), [start]
+                    while stk:
+                        x = stk.pop()
+                        if x in seen or x == other or blocks[x].get("cleanup"):
+                            continue
+                        seen.add(x)
+                        tt = blocks[x]["term"]
+                        if tt.get("k") == "call" and str(tt.get("callee") or "").startswith("hashbrown::raw::RawTable") and tt["args"] \
+                                and tt["args"][0].get("k") in ("copy", "move"):
+                            # receiver: follow `_x = &[mut] place` / copies back to a place rooted in a parameter
+                            def origin(pl, depth=0):
+                                """(ends in a hashbrown table field, goes through an enum payload)"""
+                                pj = pl.get("proj", [])
+                                through = any(e.get("k") == "downcast" for e in pj)
+                                tbl = bool(pj) and pj[-1].get("k") == "field" and str(T[pj[-1].get("ty", 0)].get("adt", "")).startswith("hashbrown::raw::RawTable")
+                                if depth < 6 and pl["local"] > b["arg_count"]:
+                                    for blk2 in blocks:
+                                        for st2 in blk2["stmts"]:
+                                            if st2.get("k") == "assign" and st2["place"]["local"] == pl["local"] and not st2["place"]["proj"]:
+                                                rv2 = st2["rv"]
+                                                src2 = rv2.get("place") if rv2.get("k") in ("ref", "copy_for_deref") else \
+                                                    (rv2["op"].get("place") if rv2.get("k") == "use" and rv2["op"].get("k") in ("copy", "move") else None)
+                                                if src2 is not None:
+                                                    t2, th2 = origin(src2, depth + 1)
+                                                    return (tbl or (t2 and not [e for e in pj if e.get("k") == "field"])), (through or th2)
+                                return tbl, through
+                            tbl, through = origin(tt["args"][0]["place"])
+                            if tbl:
+                                votes[v].add("old" if through else "main")
+                        stk.extend(_succs(tt))
+        if not (len(votes[0]) == 1 and len(votes[1]) == 1 and votes[0] != votes[1]):
+            continue
+        main_idx = 0 if votes[0] == {"main"} else 1
+        hb_ty = a["variants"][0]["fields"][0]["ty"]
+        a["kind"] = "Struct"
+        a["desugared_from_enum"] = vnames
+        sname = E.rsplit("::", 1)[-1]
+        a["variants"] = [{"name": sname, "fields": [{"name": "bucket", "ty": hb_ty, "pub": False}, {"name": "in_main", "ty": bool_ty, "pub": False}]}]
+
+        def fix_proj(pl):
+            proj = pl["proj"]
+            out = []
+            i = 0
+            while i < len(proj):
+                e = proj[i]
+                if e.get("k") == "downcast" and i + 1 < len(proj) and proj[i + 1].get("k") == "field" and proj[i + 1].get("adt") == E:
+                    f = dict(proj[i + 1])
+                    f.update({"i": 0, "name": "bucket", "variant": sname})
+                    out.append(f)
+                    i += 2
+                    continue
+                out.append(e)
+                i += 1
+            pl["proj"] = out
+
+        def walk(x):
+            if isinstance(x, dict):
+                if x.get("k") == "aggregate" and x.get("adt") == E:
+                    is_main = (x.get("vidx") == main_idx) if "vidx" in x else (x.get("variant") == vnames[main_idx])
+                    x["variant"], x["vidx"], x["fields"] = sname, 0, ["bucket", "in_main"]
+                    x["ops"] = [x["ops"][0], {"k": "const", "ty": bool_ty, "text": "true" if is_main else "false", "val": 1 if is_main else 0}]
+                if isinstance(x.get("proj"), list) and "local" in x:
+                    fix_proj(x)
+                for v in x.values():
+                    walk(v)
+            elif isinstance(x, list):
+                for v in x:
+                    walk(v)
+        walk(d["bodies"])
+        for b in d["bodies"]:
+            dl = set()
+            for blk in b["blocks"]:
+                for st in blk["stmts"]:
+                    if st.get("k") == "assign" and st["rv"].get("k") == "discr" and st["rv"]["place"].get("ty") in e_ids:
+                        pl = st["rv"]["place"]
+                        fpl = {"local": pl["local"], "proj": list(pl["proj"]) + [{"k": "field", "i": 1, "adt": E, "name": "in_main", "variant": sname, "ty": bool_ty}], "ty": bool_ty}
+                        st["rv"] = {"k": "use", "op": {"k": "copy", "place": fpl}, "was": "discriminant"}
+                        if not st["place"]["proj"]:
+                            dl.add(st["place"]["local"])
+                            b["locals"][st["place"]["local"]]["ty"] = bool_ty
+            for blk in b["blocks"]:
+                t = blk["term"]
+                if t.get("k") == "switch" and t["discr"].get("k") in ("copy", "move") and not t["discr"]["place"]["proj"] and t["discr"]["place"]["local"] in dl:
+                    t["targets"] = [[(1 if v == main_idx else 0) if v in (0, 1) else v, tb] for v, tb in t["targets"]]
+                    t["discr"]["place"]["ty"] = bool_ty
+        done.append({"enum": E, "main": vnames[main_idx], "old": vnames[1 - main_idx]})
+    d["_bucketenum"] = done
+    return done
+
+
+def flatten_table_holder(d):
+    """`struct RawTable<T> { tables: Tables<T>, extra.. }` with `struct Tables<T> { main: raw::RawTable<T>, old: Option<OldTable<T>> }`: the two-table
+    state has been moved into a struct of its own that the former split table merely holds.  Both are identified: `Tables<T>` becomes
+    another name of the outer struct, whose field list becomes Tables' fields followed by its own other fields; the projection `.tables`
+    disappears.  Only done when the inner struct is held by exactly one other struct of the crate, in a field of exactly that type."""
+    if "_flattened" in d:
+        return d["_flattened"]
+    T = d["types"]
+    adts = {a["path"]: a for a in d["adts"]}
+    done = []
+
+    def opt_payload(t):
+        if t.get("adt") == "core::option::Option" and t.get("args"):
+            return T[t["args"][0]]
+        return None
+    for a in d["adts"]:
+        if a.get("kind") != "Struct" or not a["path"].startswith(d["crate"] + "::") or a.get("exported"):
+            continue
+        fs = a["variants"][0]["fields"]
+        if not (any(T[f["ty"]].get("adt") == HB_TABLE for f in fs) and
+                any(opt_payload(T[f["ty"]]) is not None and adts.get(opt_payload(T[f["ty"]]).get("adt"), {}).get("kind") == "Struct" for f in fs)):
+            continue
+        I = a["path"]
+        holders = [(w, j) for w in d["adts"] if w is not a and w.get("kind") == "Struct" and w["path"].startswith(d["crate"] + "::")
+                   for j, f in enumerate(w["variants"][0]["fields"]) if T[f["ty"]].get("adt") == I]
+        if len(holders) != 1:
+            continue
+        w, j = holders[0]
+        if w.get("exported") or T[w["variants"][0]["fields"][j]["ty"]].get("args") != [i for i, t in enumerate(T) if False] and False:
+            continue
+        W = w["path"]
+        wf = w["variants"][0]["fields"]
+        if len(wf) < 2:
+            continue          # a plain newtype around the split table: nothing to gain
+        n_in = len(fs)
+        new_fields = [dict(f) for f in fs] + [dict(f) for k, f in enumerate(wf) if k != j]
+
+        def new_index(k):
+            return n_in + (k if k < j else k - 1)
+        # types: every instance of the inner struct becomes the same instance of the outer one
+        for t in T:
+            if t.get("k") == "adt" and t.get("adt") == I:
+                t["flattened_from"] = I
+                t["adt"] = W
+                t["s"] = t["s"].replace(I.split("::", 1)[-1], W.split("::", 1)[-1])
+        w["variants"][0]["fields"] = new_fields
+        a["kind"] = "StructFlattened"
+        wname = w["variants"][0]["name"]
+
+        def fix_proj(pl):
+            out = []
+            for e in pl["proj"]:
+                if e.get("k") == "field" and e.get("adt") == W:
+                    if e["i"] == j:
+                        continue
+                    e = dict(e)
+                    e["i"] = new_index(e["i"])
+                elif e.get("k") == "field" and e.get("adt") == I:
+                    e = dict(e)
+                    e["adt"] = W
+                    e["variant"] = wname
+                out.append(e)
+            pl["proj"] = out
+
+        def walk(x):
+            if isinstance(x, dict):
+                if isinstance(x.get("proj"), list) and "local" in x:
+                    fix_proj(x)
+                for v in x.values():
+                    walk(v)
+            elif isinstance(x, list):
+                for v in x:
+                    walk(v)
+        walk(d["bodies"])
+        # aggregates
+        for b in d["bodies"]:
+            for blk in b["blocks"]:
+                new_stmts = []
+                for st in blk["stmts"]:
+                    rv = st.get("rv") if st.get("k") == "assign" else None
+                    if rv is not None and rv.get("k") == "aggregate" and rv.get("adt") == I:
+                        rv["adt"], rv["variant"] = W, wname
+                        rv["fields"] = [f["name"] for f in new_fields]
+                        rv["ops"] = list(rv["ops"]) + [{"k": "const", "ty": f["ty"], "text": "<not yet written>"} for k, f in enumerate(wf) if k != j]
+                        rv["partial"] = True
+                        new_stmts.append(st)
+                    elif rv is not None and rv.get("k") == "aggregate" and rv.get("adt") == W and len(rv["ops"]) == len(wf):
+                        # W { tables: x, others.. }  ==>  dest = x ; dest.other_k = op_k
+                        inner_op = rv["ops"][j]
+                        new_stmts.append({"k": "assign", "place": st["place"], "rv": {"k": "use", "op": inner_op}, "span": st.get("span"), "was_aggregate": W})
+                        for k, f in enumerate(wf):
+                            if k == j:
+                                continue
+                            fp = {"local": st["place"]["local"], "proj": list(st["place"]["proj"]) + [{"k": "field", "i": new_index(k), "adt": W, "name": f["name"], "variant": wname, "ty": f["ty"]}],
+                                  "ty": f["ty"]}
+                            new_stmts.append({"k": "assign", "place": fp, "rv": {"k": "use", "op": rv["ops"][k]}, "span": st.get("span")})
+                    else:
+                        new_stmts.append(st)
+                blk["stmts"] = new_stmts
+        done.append({"inner": I, "outer": W, "field": wf[j]["name"]})
+    d["_flattened"] = done
+    return done
